@@ -32,6 +32,14 @@ FAMILIES = {
     "time-dependent/ramp": dict(dev="bar", current=5.0, current_ramp=0.2, field=0.3, field_ramp=0.3, adaptive=True, dt=DT, dt_max=0.05,
                                 solve_time=0.45, k=4),
 }
+# four terminals: every terminal's boundary condition sums THREE other currents (order-sensitive rounding: a non-dyadic split)
+SPLIT = {"source": 4.2, "drain": -0.7, "top": -1.4, "bottom": -2.1}
+CROSS_FAMILIES = {
+    "cross/constant-split": dict(dev="cross", currents=SPLIT, field=0.3, adaptive=True, dt=2e-3, dt_max=4e-3, solve_time=0.05, k=5),
+    "cross/ramp-split": dict(dev="cross", currents=SPLIT, current_ramp=0.04, field=0.3, field_ramp=0.05, adaptive=True, dt=2e-3, dt_max=4e-3,
+                             solve_time=0.05, k=4),
+}
+CROSS_THREADS_QUICK = [2, 5, 8, 16]
 THOROUGH_FAMILIES = {
     "screening/adaptive/ramp": dict(dev="barhole", current=3.0, current_ramp=0.1, field=0.6, field_ramp=0.2, adaptive=True, dt=DT, dt_max=0.03,
                                     solve_time=0.3, screening=True, k=3),
@@ -135,6 +143,12 @@ def child(args):
     assert dev2.mesh is not dev.mesh
     obs.update(_mesh_obs(dev2.mesh, "mesh/fresh"))
     kw = twin.drive(tdgl, a)
+    if a.get("currents"):
+        base = dict(a["currents"])
+        if a.get("current_ramp"):
+            kw["terminal_currents"] = lambda t, base=base, T=a["current_ramp"]: {k: v * min(1.0, t / T) for k, v in base.items()}
+        else:
+            kw["terminal_currents"] = base
     out = os.path.join(work, args["outname"])
     os.makedirs(os.path.dirname(out), exist_ok=True)
     sol = tdgl.solve(dev, twin.options(tdgl, a, out), **kw)
@@ -188,10 +202,31 @@ def run(ctx):
     from harness import core, kernelsk, twin
 
     # ---------------------------------------------------------------- 1. schedule model on the extracted skeletons
+    # A problem of the machinery in this part (a kernel the extractor does not understand, a canary, a vacuity guard) never
+    # masks a verdict: it is deferred, the real executions below still run and decide, and only if they find nothing the
+    # check ends as a machinery failure.
+    deferred = []
+    sks = []
+    for spec in kernelsk.KERNELS:
+        try:
+            sks.append(kernelsk.extract(core.REPO, spec, n_outer=3 if ctx.quick else 4))
+        except (kernelsk.SkeletonError, SyntaxError, OSError) as e:
+            deferred.append(f"kernel {spec['func']}: skeleton not understood by the extractor: {e}")
     try:
-        sks = kernelsk.extract_all(core.REPO, n_outer=3 if ctx.quick else 4)
-    except kernelsk.SkeletonError as e:
-        raise core.MachineryFailure(f"C09: kernel skeleton not understood by the extractor: {e}")
+        orders = _model_part(ctx, sks, deferred) if sks else {}
+    except core.MachineryFailure as e:
+        deferred.append(str(e)[:600])
+        orders = {}
+    _dynamic_part(ctx, orders, deferred)
+    if deferred and not ctx.violations:
+        raise core.MachineryFailure("C09: " + " | ".join(deferred))
+    if deferred:
+        ctx.cov["machinery_problems_next_to_violations"] = deferred
+
+
+def _model_part(ctx, sks, deferred):
+    from harness import core, kernelsk
+
     mc = "MCKernelC09"
     (ctx.tmp / "tlc").mkdir(parents=True, exist_ok=True)
     (ctx.tmp / "tlc" / f"{mc}.tla").write_text(kernelsk.mc_module(mc, sks))
@@ -208,8 +243,9 @@ def run(ctx):
         cov = r.coverage()
         for act in ("MasterStep", "Claim", "Step", "EndRegion"):
             if cov.get(act, (0, 0))[1] == 0:
-                raise core.MachineryFailure(f"Kernel: action {act} never taken (vacuous)")
-            ctx.cov["actions_covered"][act] = cov[act][1]
+                deferred.append(f"Kernel: action {act} never taken (vacuous)")
+            else:
+                ctx.cov["actions_covered"][act] = cov[act][1]
     ctx.cov["exhaustive"] = not r.violated
     if r.violated:
         # random schedules to the end: exhibits a schedule whose RESULT differs from the one-thread execution
@@ -234,31 +270,45 @@ def run(ctx):
         for sk in sks:
             need = sk["ext"][sk["loops"].index("prange")] if (sk["parallel"] and "prange" in sk["loops"]) else 0
             if not any(len(o) >= need for o in orders.get(sk["name"], ())):
-                raise core.MachineryFailure(f"Kernel: no complete behaviour of {sk['name']} was explored (vacuous)")
+                deferred.append(f"Kernel: no complete behaviour of {sk['name']} was explored (vacuous)")
         if codegen:
             ctx.assume("fastmath=True: the bits of " + ", ".join(sorted(codegen)) + " depend on the association the compiler chooses for the "
                        "sequential fold (TLC: CodegenIndependent is false); it is chosen once per build and is the same for every thread, call "
                        "and process on one installation, which is what the property quantifies over (checked dynamically across processes)")
-    # design canary: a skeleton with the accumulator hoisted out of the parallel body must be refuted
-    bad = copy.deepcopy(next(s for s in sks if s["accs"]) if any(s["accs"] for s in sks) else sks[0])
-    if bad["accs"]:
-        bad["accs"][0]["init"] = 0
-    else:
-        bad["stores"][0]["idx"][0] = {"var": 0, "off": 1}
+    # design canary, independent of the tree under test: the pinned skeleton of the screening kernel with the accumulator
+    # hoisted out of the parallel body must be refuted
+    bad = dict(name="canary", loops=["prange", "range", "range"], ext=[3, 2, 3], accs=[{"init": 0, "add": 3}],
+               stores=[{"at": 2, "idx": [{"var": 1, "off": 0}, {"var": 2, "off": 0}], "src": [1]}], outadds=[], shape=[3, 2],
+               outinit="garbage", fastmath=True, parallel=True)
     (ctx.tmp / "tlc" / "MCKernelBad.tla").write_text(kernelsk.mc_module("MCKernelBad", [bad]))
-    ctx.model_check("MCKernelBad", _cfg(sem), simulate="num=200", depth=500, expect_violation="ScheduleIndependent", workers=1, timeout=120,
-                    name="Kernel[canary: accumulator hoisted out of the parallel body]", count=False)
+    try:
+        ctx.model_check("MCKernelBad", _cfg(sem), simulate="num=200", depth=500, expect_violation="ScheduleIndependent", workers=1, timeout=120,
+                        name="Kernel[canary: accumulator hoisted out of the parallel body]", count=False)
+    except core.MachineryFailure as e:
+        deferred.append(str(e)[:400])
+    return orders
+
+
+DEFAULT_ORDERS = [[1, 2, 3], [3, 1, 2], [2, 3, 1], [3, 2, 1]]
+
+
+def _dynamic_part(ctx, orders, deferred):
+    from harness import core, kernelsk, twin
 
     # ---------------------------------------------------------------- 2. real executions in fresh processes
     fams = dict(FAMILIES)
+    fams.update(CROSS_FAMILIES)
     if not ctx.quick:
         fams.update(THOROUGH_FAMILIES)
     jobs = []
     sched = {k: sorted(v)[: (6 if ctx.quick else 24)] for k, v in orders.items()}
+    for spec in kernelsk.KERNELS:        # no schedule from TLC for a kernel (its model run was refuted or failed): fixed claim orders
+        sched.setdefault(spec["func"], DEFAULT_ORDERS)
+    ctx.cov["kernels_replayed_with_default_orders"] = sorted(k for k in sched if k not in orders)
     jobs.append(("kernels", dict(mode="kernels", work=str(ctx.tmp / "kern"), threads=THREADS, orders={k: [list(o) for o in v] for k, v in sched.items()}), 16, 11))
     n = 0
     for fi, (label, ph) in enumerate(fams.items()):
-        for ti, T in enumerate(THREADS):
+        for ti, T in enumerate(CROSS_THREADS_QUICK if (ctx.quick and label in CROSS_FAMILIES) else THREADS):
             locs = [ti % 2] if ctx.quick else [0, 1]
             for loc in locs:
                 n += 1
@@ -266,26 +316,26 @@ def run(ctx):
                 a = dict(physics=ph, work=str(ctx.tmp / f"proc{n}"), outname=outname, poison=1000 + n,
                          rng_seed=(None if n % 3 == 0 else 77 + n))
                 jobs.append((label, a, T, 100 + 7 * n))
-    with ThreadPoolExecutor(max_workers=5 if ctx.quick else 6) as ex:
+    with ThreadPoolExecutor(max_workers=6) as ex:
         results = list(ex.map(lambda j: _spawn(j[1], j[2], j[3], timeout=(60 if ctx.violations else 300) if ctx.quick else 600), jobs))
     for j, res in zip(jobs, results):
-        if "error" in res:
-            if ctx.violations:       # the model already refuted the kernels: do not let a harness problem hide that verdict
-                ctx.cov["children_failed_after_model_violation"] = res["error"][-300:]
-                return
-            raise core.MachineryFailure(f"C09: child process for {j[0]} (threads={j[2]}) failed: {res['error']}")
+        if "error" in res:        # deferred: the other processes are still compared
+            deferred.append(f"child process for {j[0]} (threads={j[2]}) failed: {res['error'][-400:]}")
+    kobs = results[0].get("obs", [])
+    keep = [(j, r_) for j, r_ in list(zip(jobs, results))[1:] if "error" not in r_]
+    jobs, results = [j for j, _ in keep], [r_ for _, r_ in keep]
 
     traces = []
     # 2a. kernels: schedules from TLC replayed + compiled kernels under each thread count
-    kobs = results[0]["obs"]
     intern = twin.Interner()
     ev = [{"run": o["run"], "key": f"{o['kernel']}/{o['run'].split('/')[0]}", "q": [intern(o["hash"])]} for o in kobs]
-    traces.append({"tol": 0, "minruns": 2, "ev": ev, "label": "kernels"})
+    if ev:
+        traces.append({"tol": 0, "minruns": 2, "ev": ev, "label": "kernels"})
     for o in kobs:
         ctx.note_case(("kernel", o["kernel"], o["run"]), True)
     ctx.cov["schedules_replayed"] = sum(1 for o in kobs if o["run"].startswith("py/"))
-    if orders and not ctx.cov["schedules_replayed"]:
-        raise core.MachineryFailure("C09: no TLC schedule was replayed into the kernels")
+    if not ctx.cov["schedules_replayed"]:
+        deferred.append("no schedule was replayed into the kernel bodies")
     # 2b. full runs
     for label in fams:
         intern = twin.Interner()
@@ -300,8 +350,11 @@ def run(ctx):
             drawsets.add(tuple(res["draws"]))
             ctx.note_case((label, rid), res["nframes"] >= 2)
         if len(drawsets) < 2 or not all(drawsets):
-            raise core.MachineryFailure(f"C09: the runs of {label} did not see different random draws ({len(drawsets)} distinct): vacuous")
+            deferred.append(f"the runs of {label} did not see different random draws ({len(drawsets)} distinct): vacuous")
         ctx.cov.setdefault("distinct_random_draw_sequences", {})[label] = len(drawsets)
+        if len({e["run"] for e in ev}) < 2:
+            deferred.append(f"fewer than two runs of {label} completed")
+            continue
         traces.append({"tol": 0, "minruns": 2, "ev": ev, "label": label})
         ctx.sample({"family": label, "runs": len({e['run'] for e in ev}), "observations": len(ev), "keys": len({e['key'] for e in ev}),
                     "first": ev[:3]}, limit=5)
